@@ -201,6 +201,44 @@ def leg_js_values(res, spec):
             q = {'plain': 'update a%d = "U"' % (j + 1), 'where': 'update a%d = "U" where NR %% 2 == 1' % (j + 1), 'join': 'update a%d = "U" join b on a1 == b1' % (j + 1), 'none-match': 'update a%d = "U" where NR > 100' % (j + 1)}[kind]
             reqs.append({'query': q, 'input': A, 'join': B if kind == 'join' else None, 'input_cols': None, 'join_cols': None, 'revive': True})
             metas.append((A, B, j, kind, q))
+        # keys that are loosely equal but distinct (7 and '7', 0 and '' and false, null): whatever the pairing rule of the port is, the outcome for a record
+        # depends on that record and on B only - never on its neighbours.  Oracle: the record updated alone (and the table in reverse order) gives the same record.
+        mixed_keys = [7, '7', 0, '', None, '0', 1, '1', True, False, 'k', 5, '5', 7.0, '07']
+        mreqs, mmetas = [], []
+        for n in range(max(40, spec['n'] // 3)):
+            A = [[rng.choice(mixed_keys), 's-%d' % k, rng.choice(['p', 7])] for k in range(rng.randrange(2, 7))]
+            if rng.random() < 0.5:
+                A.sort(key=lambda r: str(r[0]).lstrip('0') or '0')          # loosely equal keys next to each other
+            bk = []
+            for k in rng.sample(mixed_keys, rng.randrange(1, 6)):
+                canon = lambda v: ('bool', v) if isinstance(v, bool) else (('num', float(v)) if isinstance(v, (int, float)) else (type(v).__name__, v))
+                if canon(k) not in [canon(x) for x in bk]:
+                    bk.append(k)
+            B = [[k, 'B-%d' % i] for i, k in enumerate(bk)]
+            q = rng.choice(['update a2 = b2 join b on a1 == b1', 'update a2 = b2, a3 = "U" inner join b on b1 == a1', 'update a3 = b2 left join b on a1 == b1', 'update set a2 = b2 join b on a1 == b1 where a3 == "p"'])
+            first = len(mreqs)
+            mreqs.append({'query': q, 'input': A, 'join': B, 'input_cols': None, 'join_cols': None})
+            mreqs.append({'query': q, 'input': A[::-1], 'join': B, 'input_cols': None, 'join_cols': None})
+            for r in A:
+                mreqs.append({'query': q, 'input': [r], 'join': B, 'input_cols': None, 'join_cols': None})
+            mmetas.append((A, B, q, first))
+        mouts = node.call({'op': 'query_batch', 'cases': mreqs})['results']
+        for A, B, q, first in mmetas:
+            res.evaluations += 1
+            res.count('js_mixed_key_update_join_runs')
+            res.nontrivial('js-mixed-key-update-join', q, json.dumps(A), json.dumps(B))
+            case = {'leg': 'js-mixed-key-update-join', 'query_text': q, 'A': A, 'B': B, 'engine': 'js'}
+            full, rev, singles = mouts[first], mouts[first + 1], mouts[first + 2:first + 2 + len(A)]
+            if any(o['error'] is not None for o in [full, rev] + singles):
+                if not (full['error'] is not None and rev['error'] is not None and any(o['error'] is not None for o in singles)):
+                    res.violation('js:update-join-failure-depends-on-neighbours', '[js] %s over A=%s B=%s: errors full=%r reversed=%r alone=%r' % (q, json.dumps(A), json.dumps(B), full['error'], rev['error'], [o['error'] for o in singles]), case)
+                continue
+            alone = [o['out'][0] if len(o['out']) == 1 else o['out'] for o in singles]
+            if full['out'] != alone or rev['out'] != alone[::-1]:
+                res.violation('js:update-join-outcome-depends-on-neighbouring-records', '[js] %s over A=%s B=%s -> %s ; reversed table -> %s ; each record alone -> %s' % (
+                    q, json.dumps(A), json.dumps(B), json.dumps(full['out']), json.dumps(rev['out']), json.dumps(alone)), case)
+            else:
+                res.count('js_mixed_key_records_agreeing', len(A))
         outs = node.call({'op': 'query_batch', 'cases': reqs})['results']
         for (A, B, j, kind, q), o in zip(metas, outs):
             res.evaluations += 1
@@ -339,7 +377,7 @@ def summarize(tier, seed, m):
     shapes = sorted(k[6:] for k in m['counters'] if k.startswith('shape:'))
     return {
         'rule': 'UPDATE [SET] lists of 1-3 assignments with targets aN / a[N] / a.name / a["name"], swaps and cycles (a1 = a2, a2 = a3, a3 = a1), right-hand sides from the typed vocabulary incl. NU, NR and b-fields, WHERE true / false / partial, INNER and LEFT JOIN with 0 / 1 / 2 partners, ragged tables with the target beyond a short record; systematic sweep over the 16 combinations of {where, join, cycle, beyond}. a typed leg: ten UPDATE shapes (fractional results into an integer column, swaps between int and float columns, NU * 1.5, a number into a bool column, a string into a numeric column and back, None, products beyond 2**32, WHERE on typed cells) over dataframes with int64 / int8 / float64 / float32 / bool / object columns through query_pandas_dataframe and over a sqlite table through query_sqlite_to_csv and four shapes over an all-numeric frame (int64 identifiers beyond 2**53 next to float64) - every assigned field must hold the right-hand side value, every other field its own; a JS values leg: arrays holding NaN, Infinity, undefined, Date, BigInt, nested arrays and a BOM-led string under plain / filtered / joined / never-matching UPDATEs - every unassigned field and every non-matching record comes out as it went in, the arrays of the caller stay as they were; distinct_nontrivial = distinct (query, tables) that change at least one cell or must fail.',
-        'required': ['js_value_update_runs', 'host_syntax_update_runs:py', 'host_syntax_update_runs:js', 'typed_update_runs:pandas-all-numeric', 'typed_update_runs:pandas', 'typed_update_runs:sqlite', 'py_cases', 'row_diff_checks', 'rows_with_changes', 'predicted_missing_field_errors', 'js_cases'],
+        'required': ['js_mixed_key_update_join_runs', 'js_mixed_key_records_agreeing', 'js_value_update_runs', 'host_syntax_update_runs:py', 'host_syntax_update_runs:js', 'typed_update_runs:pandas-all-numeric', 'typed_update_runs:pandas', 'typed_update_runs:sqlite', 'py_cases', 'row_diff_checks', 'rows_with_changes', 'predicted_missing_field_errors', 'js_cases'],
         'extra': {'shapes_seen': shapes},
         'assumptions': ['rv/model/refsem.py _run_update is the UPDATE semantics of the statement'],
     }
@@ -347,4 +385,21 @@ def summarize(tier, seed, m):
 
 def replay(case, res):
     ns = env.import_rbql()
+    if case.get('leg') == 'js-mixed-key-update-join':
+        import json
+        from ..js import bridge
+        node = bridge.Node.start()
+        try:
+            A, B, q = case['A'], case['B'], case['query_text']
+            outs = node.call({'op': 'query_batch', 'cases': [{'query': q, 'input': t, 'join': B, 'input_cols': None, 'join_cols': None} for t in [A, A[::-1]] + [[r] for r in A]]})['results']
+        finally:
+            node.close()
+        res.evaluations += 1
+        if all(o['error'] is None for o in outs):
+            alone = [o['out'][0] if len(o['out']) == 1 else o['out'] for o in outs[2:]]
+            if outs[0]['out'] != alone or outs[1]['out'] != alone[::-1]:
+                res.violation('js:update-join-outcome-depends-on-neighbouring-records', '[js] %s over A=%s B=%s -> %s ; reversed -> %s ; alone -> %s' % (q, json.dumps(A), json.dumps(B), json.dumps(outs[0]['out']), json.dumps(outs[1]['out']), json.dumps(alone)), case)
+        elif not (outs[0]['error'] is not None and outs[1]['error'] is not None and any(o['error'] is not None for o in outs[2:])):
+            res.violation('js:update-join-failure-depends-on-neighbours', '[js] %s: errors %r' % (q, [o['error'] for o in outs]), case)
+        return
     common.replay_case(ns, res, case, PROPERTY, True, classify_js)
